@@ -45,6 +45,10 @@ type c05Scenario struct {
 	// ShrinkCap > 0: the daemon is restarted with a smaller per-interface address limit
 	// (cap - ShrinkCap, at least 1), e.g. after an instance-type change
 	ShrinkCap int `json:"shrink_cap,omitempty"`
+	// LegacyMask: pods (bit i = pod i) whose stored record is rewritten into the format old
+	// releases wrote (only type and an id of the form <mac>.<ip>) before the restart: a
+	// database that went through an upgrade. IPv4-only pools only (the old format has no IPv6).
+	LegacyMask int `json:"legacy_mask,omitempty"`
 }
 
 func c05Gen(t *rapid.T) c05Scenario {
@@ -67,6 +71,9 @@ func c05Gen(t *rapid.T) c05Scenario {
 	}
 	if rapid.IntRange(0, 4).Draw(t, "shrink") == 0 {
 		s.ShrinkCap = rapid.IntRange(1, 3).Draw(t, "shrinkcap")
+	}
+	if !s.Cfg.V6 && rapid.IntRange(0, 3).Draw(t, "legacy") == 0 {
+		s.LegacyMask = rapid.IntRange(1, 1<<c04Pods-1).Draw(t, "legacymask")
 	}
 	return s
 }
@@ -247,6 +254,11 @@ func c05Restart(c *vt.Ctx, s c05Scenario, idx int, sn c05Snap, retry bool) {
 	if err := os.WriteFile(dbPath, sn.db, 0o600); err != nil {
 		c.Fatalf("write db copy: %v", err)
 	}
+	if s.LegacyMask != 0 && !s.Cfg.V6 {
+		if n := c05MakeLegacy(c, dbPath, s.LegacyMask); n > 0 {
+			c.Label("restart-with-legacy-records")
+		}
+	}
 	cloud := sn.cloud.Clone()
 	vanished := ""
 	if s.Vanish > 0 {
@@ -316,7 +328,7 @@ func c05Restart(c *vt.Ctx, s c05Scenario, idx int, sn c05Snap, retry bool) {
 			c.Fatalf("%s: acknowledged ADD of %s (%s) has no record after restart", tag, name, m.cur.v4)
 		}
 		items := rec.GetResourceItemByType("eniIp")
-		if len(items) != 1 || items[0].IPv4 != m.cur.v4 || items[0].IPv6 != m.cur.v6 {
+		if i4, i6 := c05ItemAddrs(items); len(items) != 1 || i4 != m.cur.v4 || i6 != m.cur.v6 {
 			c.Fatalf("%s: record of %s after restart is %+v, acknowledged ADD returned %s/%s", tag, name, rec.Resources, m.cur.v4, m.cur.v6)
 		}
 		owners := w.owners()
@@ -339,8 +351,9 @@ func c05Restart(c *vt.Ctx, s c05Scenario, idx int, sn c05Snap, retry bool) {
 			// as the daemon is concerned, and the follow-up is judged against it
 			if rec, ok := w.record(c04PodName(r.Pod)); ok && rec.ContainerID != nil && *rec.ContainerID == cid {
 				if items := rec.GetResourceItemByType("eniIp"); len(items) == 1 &&
-					!(vanished != "" && sn.cloud.Issued[vsMustAddr(items[0].IPv4)] == vanished) {
-					x.pods[r.Pod].cur = &c04Alloc{cid: cid, v4: items[0].IPv4, v6: items[0].IPv6}
+					!(vanished != "" && sn.cloud.Issued[vsMustAddr(c05First(c05ItemAddrs(items)))] == vanished) {
+					i4, i6 := c05ItemAddrs(items)
+					x.pods[r.Pod].cur = &c04Alloc{cid: cid, v4: i4, v6: i6}
 					c.Label("unacked-add-persisted")
 				}
 			}
@@ -457,6 +470,57 @@ func c05Restart(c *vt.Ctx, s c05Scenario, idx int, sn c05Snap, retry bool) {
 	if got != capacity-held {
 		c.Fatalf("%s: after restart %d fresh pods fit, expected capacity %d - %d acknowledged = %d (addresses stranded or over-committed)", tag, got, capacity, held, capacity-held)
 	}
+}
+
+// c05ItemAddrs: the addresses a stored item stands for (legacy items carry them in the id).
+func c05ItemAddrs(items []daemon.ResourceItem) (string, string) {
+	if len(items) == 0 {
+		return "", ""
+	}
+	it := items[0]
+	if it.IPv4 == "" && it.IPv6 == "" && it.ENIID == "" {
+		if i := strings.Index(it.ID, "."); i > 0 {
+			return it.ID[i+1:], ""
+		}
+	}
+	return it.IPv4, it.IPv6
+}
+
+func c05First(a, _ string) string { return a }
+
+// c05MakeLegacy rewrites the stored records of the selected pods into the legacy format.
+func c05MakeLegacy(c *vt.Ctx, dbPath string, mask int) int {
+	db, err := vsOpenDB(dbPath)
+	if err != nil {
+		c.Fatalf("open db copy: %v", err)
+	}
+	defer func() { _ = storage.VerifClose(db) }()
+	n := 0
+	for i := 0; i < c04Pods; i++ {
+		if mask&(1<<i) == 0 {
+			continue
+		}
+		key := vsKey("ns", c04PodName(i))
+		o, err := db.Get(key)
+		if err != nil {
+			continue
+		}
+		rec := o.(daemon.PodResources)
+		changed := false
+		for j, it := range rec.Resources {
+			if it.Type == daemon.ResourceTypeENIIP && it.ENIMAC != "" && it.IPv4 != "" && it.IPv6 == "" {
+				rec.Resources[j] = daemon.ResourceItem{Type: daemon.ResourceTypeENIIP, ID: fmt.Sprintf("%s.%s", it.ENIMAC, it.IPv4)}
+				changed = true
+			}
+		}
+		if changed {
+			if err := db.Put(key, rec); err != nil {
+				c.Fatalf("rewrite record: %v", err)
+			}
+			n++
+		}
+	}
+	return n
 }
 
 func c05Desc(sn c05Snap) string {
